@@ -820,9 +820,9 @@ def _longtime(prog: Program, res: Result):
 
 VARIANTS = [
     Variant("long-time solver told to linearise the response below one hour (seeded C11_h)", "break",
-            [(GF, "    if boundary in ("UHTR", "UBWT"):\n        gfunc = gt.gfunction.gFunction(", "    options[\"linear_threshold\"] = 3600.0\n    if boundary in ("UHTR", "UBWT"):\n        gfunc = gt.gfunction.gFunction(")], "R11.4"),
+            [(GF, '    if boundary in ("UHTR", "UBWT"):\n        gfunc = gt.gfunction.gFunction(', '    options["linear_threshold"] = 3600.0\n    if boundary in ("UHTR", "UBWT"):\n        gfunc = gt.gfunction.gFunction(')], "R11.4"),
     Variant("long-time solver asked to keep the segment profiles", "benign",
-            [(GF, "    if boundary in ("UHTR", "UBWT"):\n        gfunc = gt.gfunction.gFunction(", "    options[\"profiles\"] = True\n    if boundary in ("UHTR", "UBWT"):\n        gfunc = gt.gfunction.gFunction(")]),
+            [(GF, '    if boundary in ("UHTR", "UBWT"):\n        gfunc = gt.gfunction.gFunction(', '    options["profiles"] = True\n    if boundary in ("UHTR", "UBWT"):\n        gfunc = gt.gfunction.gFunction(')]),
     Variant("radius correction skipped when the radii are within 1 mm (seeded C11_g)", "break",
             [(GF, "        g_function_corrected = []\n        for g in g_function:", "        if abs(rb_star - rb) < 1.0e-3:\n            return list(g_function)\n        g_function_corrected = []\n        for g in g_function:")], "R11.2"),
     Variant("radius correction skipped when the radii are equal", "benign",
